@@ -3750,7 +3750,7 @@ theorem validateDurations_fixed_iff (d : Durs) : validateDurations true d = true
   cases a <;> cases b <;> cases c <;>
     simp [validateDurations, Durs.Ordered, Dur.wellFormed, Dur.present, Dur.value] <;> omega
 
-/-- **claims validation (_partial: the code as it stands)** — accepted exactly when well formed,
+/-- **claims validation (_partial, historic: the code before e2d04ab)** — accepted exactly when well formed,
     min ≤ max and min ≤ default. Missing against the full statement: default ≤ max; the last
     comparison of `ValidateDurations` repeats min > default, which can no longer be true there. -/
 theorem validateDurations_coded_iff_partial (d : Durs) : validateDurations false d = true ↔ d.OrderedBelow := by
@@ -3758,7 +3758,7 @@ theorem validateDurations_coded_iff_partial (d : Durs) : validateDurations false
   cases a <;> cases b <;> cases c <;>
     simp [validateDurations, Durs.OrderedBelow, Dur.wellFormed, Dur.present, Dur.value] <;> omega
 
-/-- the full statement is false for the code as it stands: max 1h, default 2h is accepted
+/-- the full statement was false before e2d04ab: max 1h, default 2h was accepted
     (`authority.ValidateDurations(&linkedca.Durations{Max: "1h", Default: "2h"}) == nil`) -/
 example : validateDurations false { max := .val 3600, dflt := .val 7200 } = true ∧
     ¬ Durs.Ordered { max := .val 3600, dflt := .val 7200 } := by
@@ -3804,25 +3804,25 @@ theorem api_body_refusal_unchanged (v : Variant) (c : Bool) (f : Faults) (s : Au
   | none => exact absurd hb h
   | some o => rfl
 
-/-- **accepted only if valid (full strength for what the model sees)** — a create or update
-    answered with success had a body that parses, claims blocks that are well formed and ordered
-    (as far as the code checks: `OrderedBelow`), templates that validate, and details of the
-    provisioner's own type. -/
+/-- **accepted only if valid (full strength)** — a create or update answered with success had a
+    body that parses, claims blocks that are well formed and ordered min ≤ default ≤ max
+    (`Durs.Ordered`, since e2d04ab), templates that validate, and details of the provisioner's own
+    type. -/
 theorem api_accepted_only_if (f : Faults) (s : Auth) (b : ProvBody) (p : Prov) (u : Bool)
-    (h : (Auth.apiProv current false f s b p u).2 = .ok) :
-    b.parses = true ∧ (∀ d ∈ b.claims, d.OrderedBelow) ∧ b.templatesOK = true ∧ p.conv = true := by
+    (h : (Auth.apiProv current durCmpFixed f s b p u).2 = .ok) :
+    b.parses = true ∧ (∀ d ∈ b.claims, d.Ordered) ∧ b.templatesOK = true ∧ p.conv = true := by
   unfold Auth.apiProv at h
-  cases hb : provBodyCheck false b with
+  cases hb : provBodyCheck durCmpFixed b with
   | some o =>
     rw [hb] at h
-    have := provBodyCheck_some false b o hb
+    have := provBodyCheck_some durCmpFixed b o hb
     simp only at h; rw [this] at h; cases h
   | none =>
     rw [hb] at h
     simp only at h
-    obtain ⟨h1, h2, h3⟩ := (provBodyCheck_none_iff false b).mp hb
+    obtain ⟨h1, h2, h3⟩ := (provBodyCheck_none_iff durCmpFixed b).mp hb
     refine ⟨h1, fun d hd => ?_, h3, ?_⟩
-    · exact (validateDurations_coded_iff_partial d).mp (List.all_eq_true.mp h2 d hd)
+    · exact (validateDurations_fixed_iff d).mp (List.all_eq_true.mp h2 d hd)
     · have acc := accepted_details_match current rfl f s p
       cases u with
       | true => exact acc.2 h
